@@ -7,6 +7,8 @@ import FlVerif.Drv.Rules
 import FlVerif.Drv.Export
 import FlVerif.Drv.Defuzz
 import FlVerif.Drv.Lang
+import FlVerif.Drv.EngineIO
+import FlVerif.Drv.TieModels
 
 /-! Registry of driver command groups: one handler per group, tried in order (`none` = not mine / malformed). -/
 
@@ -22,5 +24,7 @@ def handlers : List (List SExp → Option SExp) :=
   , reprCmd
   , defuzz
   , lang
+  , engineIO
+  , tieModels
   ]
 end Drv
